@@ -337,18 +337,40 @@ def run_driver(args, profile="release", variant=None, timeout=1200, bin="driver"
     return r
 
 
-def validate_traces(res, label, module, cfg_text, trace_files, timeout=1200, extra_env=None):
-    """One single-worker TLC per trace file, all in parallel.  Returns list of
-    (file, accepted, reject_index, events, failed_invariant)."""
+def validate_traces(res, label, module, cfg_text, trace_files, timeout=1200, extra_env=None, split=None):
+    """One single-worker TLC per trace file, 16 at a time.  Returns list of
+    (file, accepted, reject_index, events, failed_invariant).
+    split=N: the events of the trace are independent of each other (scanner events); files are cut
+    into pieces of N lines (TLC's cost per event grows with the size of the file it has loaded)."""
+    from concurrent.futures import ThreadPoolExecutor
     wd = os.path.join(WORK, "run", "%s-%s" % (res.prop, res.tier), "tlc-" + label)
     shutil.rmtree(wd, ignore_errors=True)
     os.makedirs(wd)
     cfg = os.path.join(wd, "trace.cfg")
     open(cfg, "w").write(cfg_text)
-    procs = []
+    if split:
+        pieces = []
+        for tf in trace_files:
+            k = 0
+            out = None
+            with open(tf) as fh:
+                for i, line in enumerate(fh):
+                    if i % split == 0:
+                        if out:
+                            out.close()
+                        pp = os.path.join(wd, "%s.p%d" % (os.path.basename(tf), k))
+                        out = open(pp, "w")
+                        pieces.append(pp)
+                        k += 1
+                    out.write(line)
+            if out:
+                out.close()
+        trace_files = pieces
     t0 = time.time()
-    for i, tf in enumerate(trace_files):
-        out = open(os.path.join(wd, "t%d.out" % i), "w")
+
+    def one(args):
+        i, tf = args
+        outp = os.path.join(wd, "t%d.out" % i)
         e = dict(os.environ, TRACE=tf,
                  JAVA_TOOL_OPTIONS="-Xss256m -XX:ParallelGCThreads=2 -Xmx3g -Dtlc2.tool.queue.IStateQueue=StateDeque")
         if extra_env:
@@ -356,11 +378,15 @@ def validate_traces(res, label, module, cfg_text, trace_files, timeout=1200, ext
         # (-checkpoint 0: the depth-first StateDeque queue cannot be checkpointed, and TLC would try after 30 min)
         cmd = ["timeout", str(timeout), "tlc", "-workers", "1", "-checkpoint", "0", "-metadir", os.path.join(wd, "md%d" % i), "-cleanup",
                "-noGenerateSpecTE", "-config", cfg, os.path.join(SPEC, module + ".tla")]
-        procs.append((subprocess.Popen(cmd, stdout=out, stderr=subprocess.STDOUT, env=e, cwd=wd), out, tf, i))
+        with open(outp, "w") as out:
+            rc = subprocess.run(cmd, stdout=out, stderr=subprocess.STDOUT, env=e, cwd=wd).returncode
+        shutil.rmtree(os.path.join(wd, "md%d" % i), ignore_errors=True)
+        return rc, tf, i
+
+    with ThreadPoolExecutor(max_workers=NCPU) as ex:
+        done = list(ex.map(one, list(enumerate(trace_files))))
     results = []
-    for pr, out, tf, i in procs:
-        rc = pr.wait()
-        out.close()
+    for rc, tf, i in done:
         text = open(os.path.join(wd, "t%d.out" % i), errors="replace").read()
         m = TLC_STATS.search(text)
         states = int(m.group(2)) if m else 0
@@ -385,7 +411,8 @@ def validate_traces(res, label, module, cfg_text, trace_files, timeout=1200, ext
     res.mc.append({"step": label, "module": module, "trace_files": len(trace_files), "accepted": acc, "events": ev,
                    "wall_s": round(time.time() - t0, 1)})
     log("  [trace] %-18s %-12s files=%d accepted=%d events=%d %.0fs" % (label, module, len(trace_files), acc, ev, time.time() - t0))
-    shutil.rmtree(wd, ignore_errors=True)
+    if acc == len(results):
+        shutil.rmtree(wd, ignore_errors=True)      # (kept when something was rejected: the caller reads the piece)
     return results
 
 
